@@ -507,10 +507,20 @@ func errRes(err error) string {
 // left) and the second caller must not be served the leftover (C06-D30).
 var tailFam = -1
 
+// wrapStart != 0: the Conn's correlation id counter is preset to it before the scenario (ids cross 2^31 or 2^32 within
+// the first few requests); everything else is an ordinary random scenario.
+var wrapStart int32
+
 func connScenario(r *rand.Rand, thorough bool, single bool, stallAt int) {
 	cl, sv := net.Pipe()
 	conn := kafka.NewConnWith(cl, kafka.ConnConfig{ClientID: "c06", Topic: "t", Partition: 0})
 	conn.Seek(0, kafka.SeekAbsolute|kafka.SeekDontCheck)
+	// the wrap family: the correlation id counter starts just below 2^31 (int32 overflow) or just below 2^32 (back to 0)
+	idBase = 0
+	if wrapStart != 0 {
+		idBase = uint32(wrapStart)
+		conn.VerifSetCorrelationID(wrapStart)
+	}
 	nG := 2 + r.Intn(5)
 	perG := 1 + r.Intn(3)
 	if r.Intn(4) == 0 || single {
@@ -530,12 +540,12 @@ func connScenario(r *rand.Rand, thorough bool, single bool, stallAt int) {
 	if r.Intn(3) > 0 {
 		nf = 1 + r.Intn(2)
 	}
-	kinds := []fault{fDrop, fKafkaErr, fSlowBody, fTrunc, fClose, fKafkaErr, fSlowBody, fTail}
+	// frames nobody (any longer) waits for (fBogus, fDup): with two or more waiters such a frame at the head of the buffer
+	// makes every waiter yield to the others in waitResponse; Peek is served from the buffer, so the socket's deadline
+	// never fires.  Until /repo (round 5, C06-D32) the waiters spun forever and these faults could only be used with a single
+	// caller; now a waiter whose deadline has passed gives the connection up, and every call of these scenarios has one.
+	kinds := []fault{fDrop, fKafkaErr, fSlowBody, fTrunc, fClose, fKafkaErr, fSlowBody, fTail, fBogus, fDup}
 	if nG == 1 {
-		// frames nobody (any longer) waits for: only with a single caller.  With two or more waiters such a
-		// frame at the head of the buffer makes every waiter spin in waitResponse forever (each sees
-		// concurrency() > 1 and yields; Peek is served from the buffer, so no deadline ever fires) — a
-		// liveness problem outside C06, see docs/notes/C06.md.
 		kinds = []fault{fBogus, fDup, fStall, fStall, fStall, fKafkaErr, fDrop, fTail}
 	}
 	for i := 0; i < nf; i++ {
@@ -699,10 +709,15 @@ func connScenario(r *rand.Rand, thorough bool, single bool, stallAt int) {
 }
 
 // emitMux renders one Conn scenario: frames sent, hook events (C.Write tagged with the harness call), results.
+// idBase: the correlation id counter the Conn of the current scenario was preset to (wrap family); the lines carry
+// ids relative to it (mod 2^32), so that Model/ConnMux — whose calls are numbered from 1 — reads every scenario alike.
+// The relabelling is a bijection on 32-bit ids: it preserves which id equals which.
+var idBase uint32
+
 func emitMux(sent []sentFrame, reqs []muxReq, evs []kafka.VerifEvent, writeTag map[int]int, results []callRes) {
 	var stream []string
 	for _, f := range sent {
-		stream = append(stream, fmt.Sprintf("%d:%d", f.id, f.tag))
+		stream = append(stream, fmt.Sprintf("%d:%d", f.id-idBase, f.tag))
 	}
 	var es []string
 	holder := ""
@@ -726,22 +741,22 @@ func emitMux(sent []sentFrame, reqs []muxReq, evs []kafka.VerifEvent, writeTag m
 				tag = 0 // the lazy ApiVersions exchange in front of the first versioned operation
 			}
 			wid, _ := strconv.ParseInt(e.Args[1], 10, 64)
-			item = fmt.Sprintf("W%d:%d:%d", tag, ok, uint32(wid))
+			item = fmt.Sprintf("W%d:%d:%d", tag, ok, uint32(wid)-idBase)
 		case "C.Peek":
 			id, _ := strconv.ParseInt(e.Args[1], 10, 64)
 			switch e.Args[3] {
 			case "close":
-				item = fmt.Sprintf("E%d", uint32(id))
+				item = fmt.Sprintf("E%d", uint32(id)-idBase)
 			case "take":
-				item = fmt.Sprintf("T%d", uint32(id))
-				holder = strconv.Itoa(int(uint32(id)))
+				item = fmt.Sprintf("T%d", uint32(id)-idBase)
+				holder = strconv.Itoa(int(uint32(id)-idBase))
 			default:
 				seen, _ := strconv.ParseInt(e.Args[2], 10, 64)
 				k := "Y"
 				if e.Args[3] == "lone" {
 					k = "L"
 				}
-				item = fmt.Sprintf("%s%d:%d", k, uint32(id), uint32(seen))
+				item = fmt.Sprintf("%s%d:%d", k, uint32(id)-idBase, uint32(seen)-idBase)
 			}
 		case "C.Closed":
 			item = "K"
@@ -755,7 +770,7 @@ func emitMux(sent []sentFrame, reqs []muxReq, evs []kafka.VerifEvent, writeTag m
 				who = holder
 			} else {
 				id, _ := strconv.ParseInt(who, 10, 64)
-				who = strconv.Itoa(int(uint32(id)))
+				who = strconv.Itoa(int(uint32(id)-idBase))
 			}
 			item = fmt.Sprintf("F%s:%s", who, o)
 		default:
@@ -798,6 +813,9 @@ func main() {
 		n, _ = strconv.Atoi(os.Args[1])
 	}
 	n += 8
+	// first: on a tree where stranded waiters spin for ever the random multi-caller scenarios below hang (the watchdog
+	// ends the run), so the deterministic case must already be on record; its two goroutines then keep spinning
+	strandedCase()
 	deadlineCases()
 	bytesCases(r, thorough)
 	consumedCases(r, thorough)
@@ -827,9 +845,15 @@ func main() {
 		} else if j < 34 {
 			stallAt = j
 		}
+		// every 7th random scenario crosses an id boundary
+		wrapStart = 0
+		if j >= 34 && j%7 == 0 {
+			wrapStart = []int32{1<<31 - 3, -3, 1<<31 - 1, -1, -1 << 31}[(j/7)%5] - int32(r.Intn(3))
+		}
 		connScenario(r, thorough, j >= 0 && j < 34+n/5, stallAt)
 		out.Flush()
 		close(fin)
 	}
 	transportScenarios(r, thorough)
+	idWrapCases()
 }
